@@ -47,7 +47,7 @@ CHECKS = {
  "C06": ("sim-pair", "exploration",
    "property-based testing over schedules: cooperative generated programs on an executor that polls only woken tasks; oracle = no application task pending at quiescence; stalled cases re-run with spurious polls to tell a lost wake-up from an accounting stall",
    "Cooperative programs (every reader reads and releases, every sender sends what it is assigned, connections driven by their own tasks) are run under generated schedules, chunkings, windows ≥ 1, limits ≥ 1 and mid-connection window changes. At quiescence (nothing runnable, nothing in flight) every application task must have finished. A stalled case is re-polled generously: completing then proves a lost wake-up; stalling still is an accounting stall.",
-   "Bounded liveness only (deadlock/lost-wakeup freedom per generated program and schedule), not fairness over unbounded time. The raw-queue-client engine adds requests queued behind a scripted peer's stream limit with the slots released by peer END_STREAM / own END_STREAM / send_reset / dropped handles / peer RST_STREAM; tap oracle: every submitted, uncancelled request is on the wire at quiescence unless the acknowledged limit is reached. Programs with resets and drops (PAIR Resets) are judged for lost wake-ups only; user PINGs acknowledged while the connection lives are reported as pongs (also around a graceful shutdown, PAIR Faults); the client connection is first polled under another waker than later. Every scripted-peer engine (capacity, flow, acks, shutdown, goaway, both catalogues, both http engines) also runs here with the lost-wake-up oracle: a program stuck at quiescence that completes once every task is polled again was not woken by the library.",
+   "Bounded liveness only (deadlock/lost-wakeup freedom per generated program and schedule), not fairness over unbounded time. The raw-queue-client engine adds requests queued behind a scripted peer's stream limit with the slots released by peer END_STREAM / own END_STREAM / send_reset / dropped handles / peer RST_STREAM; tap oracle: every submitted, uncancelled request is on the wire at quiescence unless the acknowledged limit is reached. Programs with resets and drops (PAIR Resets) are judged for lost wake-ups only; the client connection is first polled under another waker than later. Every scripted-peer engine (capacity, flow, acks, shutdown, goaway, both catalogues, both http engines) also runs here with the lost-wake-up oracle: a program stuck at quiescence that completes once every task is polled again was not woken by the library.",
    "DESIGN.md §3 C06"),
  "C05": ("sim-pair", "exploration",
    "property-based testing: generated exchanges with small limits and every close path; oracle = slot accounting over the tapped wire (open-on-the-wire count vs acknowledged limit) and over the API log (streams surfaced concurrently; refusals only when slots may be taken)",
